@@ -11,8 +11,8 @@
    directory entries whose *name* is ".", ".." or "/" (possible in Go through
    MkdirAll("a/../b") or Create("/")): creating operations return [FErr] on such
    a final component, and the correspondence generator never produces them. *)
-From Apko Require Import Base.Prelude.
-Open Scope string_scope. Open Scope list_scope.
+From Apko Require Import Base.Prelude Generated.C13Consts.
+Open Scope nat_scope. Open Scope string_scope. Open Scope list_scope.
 
 Inductive fres (A : Type) : Type :=
 | FOk (a : A)
@@ -79,6 +79,13 @@ Definition with_owner (n : node) (u g : N) : node :=
   mkNode (nkind n) (nperm n) u g (ntarget n) (ndata n) (nchildren n) (nback n).
 Definition with_data (n : node) (d : string) : node :=
   mkNode (nkind n) (nperm n) (nuid n) (ngid n) (ntarget n) d (nchildren n) (nback n).
+
+(* writing through a handle opened with O_TRUNC: the node's buffer is replaced;
+   whether the tar entry backing a package file is let go of is read from the
+   source (today it is not: finding C13-F4) *)
+Definition trunc_write (n : node) (d : string) : node :=
+  mkNode (nkind n) (nperm n) (nuid n) (ngid n) (ntarget n) d (nchildren n)
+         (if tarfs_trunc_detaches then "" else nback n).
 
 (* add a child entry [nm -> c] to directory [d] *)
 Definition add_child (f : fs) (d : nat) (nm : string) (c : nat) : fs :=
@@ -296,7 +303,7 @@ Definition read_or_create (f : fs) (p : path) (perm : N) : fres (fs * string) :=
 Definition create_perm : N := 438.   (* 0o666 *)
 Definition create_write (f : fs) (p : path) (content : string) : fres fs :=
   fdo r <- openfile maxl f p create_perm;
-  let (f', i) := r in FOk (upd f' i (fun n => with_data n content)).
+  let (f', i) := r in FOk (upd f' i (fun n => trunc_write n content)).
 
 Definition symlink (f : fs) (target : string) (p : path) : fres fs :=
   fdo d <- gn f (pdir p);
